@@ -57,6 +57,16 @@ def resolve_encoded(names):
     return out, files
 
 
+def _die_with_parent():
+    """workers are killed when the runner dies (PR_SET_PDEATHSIG)"""
+    try:
+        import ctypes
+        import signal
+        ctypes.CDLL("libc.so.6").prctl(1, signal.SIGKILL)
+    except Exception:  # noqa
+        pass
+
+
 def _run_chunk(chunk, workdir, idx, engine):
     spec = os.path.join(workdir, f"spec_{idx}.json")
     out = os.path.join(workdir, f"out_{idx}.jsonl")
@@ -65,7 +75,7 @@ def _run_chunk(chunk, workdir, idx, engine):
     budget = sum(o.timeout * 1.4 + 10 for o in chunk) * 1.5 + 60
     t0 = time.time()
     try:
-        p = subprocess.run([PY, "-m", mod, spec, out, workdir], env=_env(), cwd=ROOT,
+        p = subprocess.run([PY, "-m", mod, spec, out, workdir], env=_env(), cwd=ROOT, preexec_fn=_die_with_parent,
                            stdout=subprocess.PIPE, stderr=subprocess.PIPE, timeout=budget)
         err = p.stderr.decode(errors="replace")[-2000:] if p.returncode else ""
     except subprocess.TimeoutExpired:
@@ -152,7 +162,14 @@ def main(argv=None):
     if args.replay:
         spec = json.load(open(args.replay))
         ob = Obligation.from_json(spec["obligation"])
-        r = replay(ob, spec["args"])
+        rmod = importlib.import_module(ob.module)
+        rdir = tempfile.mkdtemp(prefix=f"vf_{prop}_replay_")
+        try:
+            if getattr(rmod, "prepare", None):
+                rmod.prepare("quick", rdir)
+            r = replay(ob, spec["args"])
+        finally:
+            shutil.rmtree(rdir, ignore_errors=True)
         print(json.dumps(r, indent=1))
         if r.get("reproduced"):
             print(f"VIOLATION property={prop} replay={args.replay}")
@@ -172,11 +189,15 @@ def main(argv=None):
     known = load_known()
     workdir = tempfile.mkdtemp(prefix=f"vf_{prop}_")
     try:
-        pre = getattr(mod, "prepare", None)
-        side = pre(tier, workdir) if pre else None
-        results = schedule(obs, args.jobs, workdir)
+        return _run(args, mod, prop, tier, seed, obs, known, workdir, t0)
     finally:
         shutil.rmtree(workdir, ignore_errors=True)
+
+
+def _run(args, mod, prop, tier, seed, obs, known, workdir, t0):
+    pre = getattr(mod, "prepare", None)
+    side = pre(tier, workdir) if pre else None
+    results = schedule(obs, args.jobs, workdir)
 
     violations, known_hits, inconclusive, confirmed, replayed = [], [], [], [], 0
     rdir = os.path.join(ROOT, "replays", prop)
